@@ -7,6 +7,10 @@ TECH = "bounded symbolic execution of the real code's go/ssa form, every branch/
 BASE = "cd /repo && go test -vet=off -count=1 -timeout 25m ./..."
 
 CLAIMED = {
+ "C07": dict(
+   text="FrameCodec.Decode is executed symbolically from an ARBITRARY source buffer (any si<=ri<=wi<=cap<=2^40, arbitrary bytes, any max in [0,2^40]) and compared with an independent RFC 6455 header parser written in the harness: outcome class (frame / need-more / error), frame bytes at an arbitrary index, declared length (all of 7/16/64-bit classes incl. >= 2^63), no stream byte lost or altered, decoder left in sync; the lazy consume of the previous frame (resetDecode) is a second inductive step; Encode->Decode round trip for arbitrary well-formed frames of every header-bit combination and length class. No panic on any input within the bounds.",
+   note="Split independence follows from the inductive formulation: need-more leaves every stream byte in place (asserted) and the next step starts from an arbitrary state. Trusts go/ssa, the engine, z3/cvc5. Buffer sizes <= 2^40.",
+   ref="DESIGN.md §4 C07"),
  "C09": dict(
    text="One inductive step per public ByteBuffer method (Commit, Consume, Save, SavedSlot, Discard, DiscardAll, Reset, Reserve, Write, WriteByte, WriteString, Claim, ClaimFixed, ShrinkBy, ShrinkTo, PrepareRead, Read, ReadByte, UnreadByte, ReadFrom, AsyncReadFrom, WriteTo, AsyncWriteTo, observers) from an ARBITRARY buffer state (si<=ri<=wi<=cap<=2^40, arbitrary bytes) with every integer argument ranging over all of int64: the invariant, the per-method relational post-condition for an arbitrary byte index, and absence of panics are decided by the solver; plus histories of k=2/3 operations from NewByteBuffer.",
    note="Trusts go/ssa lowering, the engine, z3 (+cvc5/z3 5.1 portfolio for queries z3 gives up on). Slot arguments of Discard/SavedSlot are valid handles (0<=Index, 0<=Length<=si-Index); Reserve/Write above 2^40 bytes excluded (allocation failure); reader/writer stubs obey the io contracts; capacity after reallocation is any value >= the new length; Prefault not covered.",
